@@ -74,6 +74,7 @@ def collect_consts(v, st, acc, seen):
             acc.extend(h.maps)
 
 
+
 class FunctionResult(object):
     def __init__(self, contract):
         self.contract = contract
@@ -109,6 +110,37 @@ def verify_function(ex, c, prop):
     return total
 
 
+def _literals(reg, c, node):
+    import re
+    lits = []
+
+    def add(v):
+        if isinstance(v, bytes) and 0 < len(v) <= 40 and v not in lits:
+            lits.append(v)
+    for n in ast.walk(node):
+        if isinstance(n, ast.Constant):
+            add(n.value)
+    called = set()
+    for n in ast.walk(node):
+        if isinstance(n, ast.Call):
+            f = n.func
+            called.add(f.id if isinstance(f, ast.Name) else (f.attr if isinstance(f, ast.Attribute) else None))
+    for cc in [c] + [x for x in reg.contracts.values() if x.qualname.split('.')[-1] in called]:
+        texts = [t for _, t in cc.requires + cc.ensures + cc.inv] + [t for cl in cc.raises.values() for _, t in cl]
+        for ls in cc.loops.values():
+            texts += list(ls.inv)
+        for t in texts:
+            if not isinstance(t, str):
+                continue
+            try:
+                for n in ast.walk(ast.parse(re.sub(r'==>', ' or ', t.strip()), mode='eval')):
+                    if isinstance(n, ast.Constant):
+                        add(n.value)
+            except SyntaxError:
+                pass
+    return lits[:60]
+
+
 def verify_function1(ex, c, prop, case):
     """Returns FunctionResult with undischarged obligations."""
     t0 = time.time()
@@ -120,6 +152,10 @@ def verify_function1(ex, c, prop, case):
     pycls = None
     if '.' in c.qualname:
         pycls = getattr(mod, c.qualname.split('.')[0])
+    # byte-string literals of the function under verification, of its contract and of the contracts
+    # of the functions it calls: spec functions over strings (lower) state their value on these
+    # literals (ground facts), so `k == b'Lit'` decides `k.lower()`
+    ex.reg.literals = _literals(ex.reg, c, node)
     st = State()
     env = {}
     a = node.args
@@ -356,6 +392,139 @@ def slice_direct(assumptions, goal):
     return [a for a in assumptions if consts_and_funcs([a]) & gs]
 
 
+def mem_axioms(terms, depth=6):
+    """Definitional instances of memof / idxof (vals.memof) for the sequence terms occurring in
+    `terms` (of an element sort for which membership is used at all), closed under the prefixes they
+    introduce.  All instances are true facts about real dicts (keys distinct, membership =
+    occurrence in the key sequence)."""
+    out, done = [], set()
+    work = list(terms)
+    sorts = set()
+    for _ in range(depth):
+        seqs, sels = [], []
+        seen, stack = set(), list(work)
+        while stack:
+            t = stack.pop()
+            k = t.get_id()
+            if k in seen:
+                continue
+            seen.add(k)
+            if z3.is_quantifier(t):
+                continue            # terms under a binder mention bound variables: no instances from there
+            if z3.is_app(t):
+                if t.decl().kind() == z3.Z3_OP_UNINTERPRETED and t.decl().name().startswith('memof_'):
+                    sorts.add(t.arg(0).sort().basis().name())
+                    seqs.append(t.arg(0))
+                if z3.is_select(t) and z3.is_app(t.arg(0)) and t.arg(0).decl().kind() == z3.Z3_OP_UNINTERPRETED \
+                        and t.arg(0).decl().name().startswith('memof_'):
+                    sels.append(t)
+                if z3.is_seq(t) and not z3.is_string(t) and not z3.is_const(t):
+                    seqs.append(t)
+                stack.extend(t.children())
+        new = []
+        for sq in seqs:
+            if sq.sort().basis().name() not in sorts or ('a', sq.get_id()) in done:
+                continue
+            done.add(('a', sq.get_id()))
+            es = sq.sort().basis()
+            a = memof(sq)
+            if z3.is_app_of(sq, z3.Z3_OP_SEQ_EMPTY):
+                new.append(a == z3.K(es, z3.BoolVal(False)))
+            elif z3.is_app_of(sq, z3.Z3_OP_SEQ_UNIT):
+                new.append(a == z3.Store(z3.K(es, z3.BoolVal(False)), sq.arg(0), z3.BoolVal(True)))
+            elif z3.is_app_of(sq, z3.Z3_OP_SEQ_CONCAT) and z3.is_app_of(sq.arg(sq.num_args() - 1), z3.Z3_OP_SEQ_UNIT):
+                ch = sq.children()
+                pre = ch[0] if len(ch) == 2 else z3.Concat(*ch[:-1])
+                new.append(a == z3.Store(memof(pre), ch[-1].arg(0), z3.BoolVal(True)))
+            elif z3.is_app_of(sq, z3.Z3_OP_ITE):
+                new.append(a == z3.If(sq.arg(0), memof(sq.arg(1)), memof(sq.arg(2))))
+            else:
+                # an empty key sequence has no member, whatever term denotes it
+                new.append(z3.Implies(z3.Length(sq) == 0, a == z3.K(es, z3.BoolVal(False))))
+        for t in sels:
+            if ('s', t.get_id()) in done:
+                continue
+            done.add(('s', t.get_id()))
+            sq, k = t.arg(0).arg(0), t.arg(1)
+            j = idxof(sq, k)
+            new.append(z3.Implies(t, z3.And(j >= 0, j < z3.Length(sq), sq[j] == k)))
+        if not new:
+            break
+        out += new
+        work = new
+    return out
+
+
+def funcs_of(terms):
+    """uninterpreted function symbols of arity > 0"""
+    seen, names, stack = set(), set(), list(terms)
+    while stack:
+        t = stack.pop()
+        k = t.get_id()
+        if k in seen:
+            continue
+        seen.add(k)
+        if z3.is_quantifier(t):
+            stack.append(t.body())
+            continue
+        if z3.is_app(t):
+            if t.decl().kind() == z3.Z3_OP_UNINTERPRETED and t.num_args() > 0:
+                names.add(t.decl().name())
+            stack.extend(t.children())
+    return names
+
+
+def slice_lean(assumptions, goal):
+    """the direct slice without the assumptions that bring in spec functions the goal does not
+    mention (definitional instances of serialisers etc. are the bulk of most hypothesis sets)"""
+    gs = consts_and_funcs([goal])
+    gf = funcs_of([goal])
+    return [a for a in assumptions if (consts_and_funcs([a]) & gs) and funcs_of([a]) <= gf]
+
+
+def split_goal(goal):
+    """P ==> (A and B)  ->  [P ==> A, P ==> B];  A and B -> [A, B]  (one level, recursively on the right)"""
+    if z3.is_and(goal):
+        out = []
+        for ch in goal.children():
+            out += split_goal(ch)
+        return out
+    if z3.is_implies(goal):
+        return [z3.Implies(goal.arg(0), g) for g in split_goal(goal.arg(1))]
+    if z3.is_app_of(goal, z3.Z3_OP_ITE) and goal.sort() == z3.BoolSort():
+        c, a, b = goal.children()
+        return [z3.Implies(c, g) for g in split_goal(a)] + [z3.Implies(z3.Not(c), g) for g in split_goal(b)]
+    return [goal]
+
+
+def prove_split(obls, budget, workers=None):
+    """obligations the solvers left open as a whole: prove the conjuncts of the goal one by one,
+    each on growing hypothesis slices.  Only ever concludes `unsat` (all conjuncts proved)."""
+    items = []
+    for ob in obls:
+        parts = split_goal(ob.goal)
+        if len(parts) < 2 or len(parts) > 12:
+            continue
+        for pi, g in enumerate(parts):
+            asm = list(ob.assumptions)
+            stages = [slice_lean(asm, g), slice_direct(asm, g), asm]
+            items.append([ob, pi, g, stages, False])
+    for level in range(3):
+        batch = [it for it in items if not it[4]]
+        if not batch:
+            break
+        res = smt.solve_many([('%s#part%d.%d' % (it[0].full, it[1], level), smt.to_smt2(it[3][level] + [z3.Not(it[2])], []), False, False)
+                              for it in batch], budget=budget if level == 2 else min(budget, 12.0), workers=workers)
+        for it, r in zip(batch, res):
+            it[0].seconds += r['seconds']
+            if r['verdict'] == 'unsat':
+                it[4] = True
+    for ob in obls:
+        mine = [it for it in items if it[0] is ob]
+        if mine and all(it[4] for it in mine):
+            ob.verdict, ob.backend = 'unsat', 'goal split into %d conjuncts, each discharged' % len(mine)
+
+
 def slice_assumptions(assumptions, goal):
     """cone of influence: keep the assumptions that (transitively) share a symbol with the goal.
     Dropping assumptions only weakens the hypothesis, so `unsat` for the slice is a proof."""
@@ -409,6 +578,7 @@ def discharge(obls, budget=10.0, workers=None):
                 continue
             jobs.append((ob, (ob.full, smt.to_smt2(asserts, []), False, False), False))
             continue
+        ob.assumptions = list(ob.assumptions) + mem_axioms(list(ob.assumptions) + [ob.goal])
         full = list(ob.assumptions) + [z3.Not(ob.goal)]
         simp = z3.simplify(z3.And(full))
         if z3.is_false(simp):
@@ -418,6 +588,9 @@ def discharge(obls, budget=10.0, workers=None):
         stages = []
         sd = slice_direct(list(ob.assumptions), ob.goal)
         sl = slice_assumptions(list(ob.assumptions), ob.goal)
+        sn = slice_lean(list(ob.assumptions), ob.goal)
+        if len(sn) < len(sd):
+            stages.append(('#lean', sn))
         if len(sd) < len(sl):
             stages.append(('#direct', sd))
         if len(sl) < len(ob.assumptions):
@@ -425,7 +598,7 @@ def discharge(obls, budget=10.0, workers=None):
         staged.append((ob, stages))
     # stage by stage: smaller hypothesis sets first (unsat there is a proof), the full set last
     pending = staged
-    for level in range(2):
+    for level in range(3):
         batch = [(ob, st[level]) for ob, st in pending if len(st) > level]
         if not batch:
             continue
@@ -447,6 +620,9 @@ def discharge(obls, budget=10.0, workers=None):
             ob.seconds += r['seconds']
             _record(ob, r, '')
     open_ = [ob for ob in obls if ob.kind not in ('cover', 'enumerated') and ob.verdict not in ('sat', 'unsat')]
+    if open_:
+        prove_split(open_, budget, workers=workers)
+        open_ = [ob for ob in open_ if ob.verdict != 'unsat']
     if open_ and len(open_) <= 8 and os.environ.get('PYVC_INSTANTIATE'):
         refute_by_instantiation(open_, budget=min(budget, 10.0), workers=workers)
     return obls
